@@ -58,6 +58,7 @@ struct KernelHooks {
 	virtual void on_close(KFd &k) = 0;
 	virtual void on_timer_set(KFd &k, uint64_t ns) = 0;
 	virtual void on_timer_create_failed() {}
+	virtual int syscall_fault(const char *name) { (void)name; return 0; }   // errno the call must fail with now, or 0
 	virtual void on_syscall(const char *name) = 0;     // every sim_* call: step counting, sigterm-inside-batch
 	virtual void hygiene(const std::string &rule, const std::string &detail) = 0;
 	virtual void on_log(int pri, const std::string &line) = 0;
